@@ -506,3 +506,22 @@ CORPUS += [
     V("C18", "cvrp-generator-key-renamed", R + "cvrp/generator.py", '"demand": demand / self.capacity,', '"demands": demand / self.capacity,', "C18.c"),
     V("C18", "pctsp-generator-drops-stochastic-prize", R + "pctsp/generator.py", '"stochastic_prize": stochastic_prize,', '', "C18.c"),
 ]
+
+GDF = "rl4co/data/generate_data.py"
+FPF = "rl4co/envs/scheduling/fjsp/parser.py"
+CORPUS += [
+    # ---------------------------------------------------------------- C19
+    V("C19", "vrp-writer-renames-capacity", GDF, '"capacity": np.full(dataset_size, CAPACITIES[vrp_size]).astype(np.float32),', '"vehicle_capacity": np.full(dataset_size, CAPACITIES[vrp_size]).astype(np.float32),', "C19.b"),
+    V("C19", "op-writer-drops-max-length", GDF, '        "max_length": np.full(dataset_size, max_lengths[op_size]).astype(np.float32),\n', '', "C19.b"),
+    V("C19", "pdp-writer-renames-depot", GDF, '        "depot": depot.astype(np.float32),\n    }\n\n\ndef generate_op_data', '        "depots": depot.astype(np.float32),\n    }\n\n\ndef generate_op_data', "C19.b"),
+    V("C19", "npz-save-skips-keys", "rl4co/data/utils.py", "x_dict = {k: v.numpy() for k, v in tensordict.items()}", "x_dict = {k: v.numpy() for k, v in tensordict.items() if v.dim() > 1}", "C19.a"),
+    V("C19", "fjsp-reader-no-minus-one", FPF, "proc_times[ma - 1, op_cnt] = dur", "proc_times[ma, op_cnt] = dur", "C19.c"),
+    V("C19", "fjsp-writer-no-plus-one", FPF, "job.extend([int(machine.item()) + 1, int(duration.item())])", "job.extend([int(machine.item()), int(duration.item())])", "C19.c"),
+    V("C19", "fjsp-writer-order-swapped", FPF, "job.extend([int(machine.item()) + 1, int(duration.item())])", "job.extend([int(duration.item()), int(machine.item()) + 1])", "C19.c"),
+    V("C19", "fjsp-reader-cursor", FPF, "        idx += 1 + num_pairs\n", "        idx += num_pairs\n", "C19.c"),
+    V("C19", "env-setstate-drops-rng", "rl4co/envs/common/base.py", '        self.rng.set_state(state["rng"])\n', '', "C19.d"),
+    V("C19", "rollout-getstate-keeps-dataset-setstate-none", BLF, '            del state["dataset"]\n', '            del state["policy"]\n', "C19.d"),
+    V("C19", "checkpoint-strips-all-occurrences", RFF, 'k.replace("baseline.", "", 1)', 'k.replace("baseline.", "")', "C19.e"),
+    V("C19", "cvrp-load-data-no-normalisation", R + "cvrp/env.py", '        td_load.set("demand", td_load["demand"] / td_load["capacity"][:, None])\n', '', "C19.b"),
+    V("C19", "eq-env-getstate-rename", "rl4co/envs/common/base.py", '        state = self.__dict__.copy()\n        state["rng"] = state["rng"].get_state()\n        return state', '        st = self.__dict__.copy()\n        st["rng"] = st["rng"].get_state()\n        return st', None),
+]
